@@ -30,7 +30,8 @@ EVIDENCE_DIR = os.path.join(bootstrap.VERIF_DIR, "evidence")
 REPLAY_DIR = os.path.join(EVIDENCE_DIR, "replay")
 KNOWN_FILE = os.path.join(bootstrap.VERIF_DIR, "known_findings.json")
 
-MAX_VIOLATION_RECORDS = 40  # per shard; further ones are only counted
+MAX_VIOLATION_RECORDS = 400  # per shard
+MAX_RECORDS_PER_SIGNATURE = 4  # example records kept per (sub-oracle, key, explained) signature
 MAX_SAMPLES = 5
 
 
@@ -98,6 +99,7 @@ class Ctx:
         self.classes: dict[str, int] = {}
         self.samples: list = []
         self.violations: list = []
+        self.sigcounts: dict[str, int] = {}
         self.n_violations = 0
         self.evaluations = 0
         self.nontrivial: set[str] = set()
@@ -168,7 +170,12 @@ class Ctx:
             return True
         self.failures[sub] = self.failures.get(sub, 0) + 1
         self.n_violations += 1
-        if len(self.violations) < MAX_VIOLATION_RECORDS:
+        ex = bool(explained) if explained is not None else False
+        sig = f"{sub}|{key or sub}|{int(ex)}"
+        self.sigcounts[sig] = self.sigcounts.get(sig, 0) + 1
+        # keep example records per signature (so that a flood of one known finding can never crowd
+        # out the record of a different failure); every failure is classified through sigcounts
+        if self.sigcounts[sig] <= MAX_RECORDS_PER_SIGNATURE and len(self.violations) < MAX_VIOLATION_RECORDS:
             self.violations.append(
                 {
                     "sub": sub,
@@ -187,7 +194,7 @@ class Ctx:
             "prop": self.prop, "shard": self.shard, "mode": self.mode, "spec": self.spec,
             "counters": self.counters, "monitors": self.monitors, "failures": self.failures,
             "extrema": self.extrema, "minima": self.minima, "classes": self.classes,
-            "samples": self.samples, "violations": self.violations,
+            "samples": self.samples, "violations": self.violations, "sigcounts": self.sigcounts,
             "n_violations": self.n_violations, "evaluations": self.evaluations,
             "nontrivial": len(self.nontrivial), "notes": self.notes,
             "inconclusive": self.inconclusive, "wall_s": time.time() - self.t0,
@@ -357,7 +364,7 @@ def run_shards(prop, tier, seed, specs, replay=None):
 def merge(results):
     m = {
         "counters": {}, "monitors": {}, "failures": {}, "extrema": {}, "minima": {}, "classes": {},
-        "samples": [], "violations": [], "n_violations": 0, "evaluations": 0, "nontrivial": 0,
+        "samples": [], "violations": [], "sigcounts": {}, "n_violations": 0, "evaluations": 0, "nontrivial": 0,
         "notes": [], "inconclusive": [], "shards": [], "extra": {},
     }
     for r in results:
@@ -371,6 +378,8 @@ def merge(results):
             if kk not in m["minima"] or v < m["minima"][kk]:
                 m["minima"][kk] = v
         m["violations"].extend(r["violations"])
+        for kk, v in r.get("sigcounts", {}).items():
+            m["sigcounts"][kk] = m["sigcounts"].get(kk, 0) + v
         m["n_violations"] += r["n_violations"]
         m["evaluations"] += r["evaluations"]
         m["nontrivial"] += r["nontrivial"]
@@ -398,17 +407,25 @@ def load_known(prop):
 
 
 def classify(prop, merged):
-    """Split recorded violations into known findings (listed key AND defect model explains the
-    numbers) and genuine violations."""
+    """Split failures into known findings (listed key AND defect model explains the numbers) and
+    genuine violations.  Classification runs over *every* failure through its signature count;
+    the recorded violations only supply examples."""
     known = {e["key"]: e for e in load_known(prop)}
     kf, viol = {}, []
+    examples = {}
     for v in merged["violations"]:
-        e = known.get(v["key"])
-        if e is not None and v.get("explained"):
-            kf.setdefault(v["key"], {"entry": e, "count": 0, "example": v})
-            kf[v["key"]]["count"] += 1
+        sig = f"{v['sub']}|{v['key']}|{int(bool(v.get('explained')))}"
+        examples.setdefault(sig, v)
+    for sig, cnt in merged["sigcounts"].items():
+        sub, key, ex = sig.rsplit("|", 2)
+        e = known.get(key)
+        example = examples.get(sig) or {"sub": sub, "key": key, "explained": bool(int(ex)), "case": None,
+                                        "observed": {"note": "no example record kept"}, "mode": "?", "shard": -1}
+        if e is not None and int(ex):
+            kf.setdefault(key, {"entry": e, "count": 0, "example": example})
+            kf[key]["count"] += cnt
         else:
-            viol.append(v)
+            viol.append(example)
     return kf, viol
 
 
